@@ -255,6 +255,20 @@ check(
     spec="ReqContext",
 )
 
+check(
+    "C14",
+    "CorpusPrep.tla is a file-system state machine of prepare_document_set / prepare_bundled_document_set and what they call (one decision or one change of {doc, archive, .tmp, offset table, "
+    "mtime relation} per step): every initial directory state x size declaration x 9 formats x tool mode x net mode x outcome of each of the up to 11 download attempts x kill/interrupt in every "
+    "state of a first run followed by a fresh second run. TLC -simulate behaviours run on the real DocumentSetPreparator, Downloader, Decompressor, net.download, io.decompress, "
+    "io.prepare_file_offset_table and io.skip_lines with real files (100,001-line ndjson, real bz2/gz/zst/zip/tar archives, real tools), a scripted urllib3 pool handing out real HTTPResponse "
+    "objects, crashes by fork+_exit or BaseException at the k-th observed mutating call; every chain is projected (content class, mtime relation, table parse, seek equivalence for every line) "
+    "and validated by TLC: L1 ReturnedOK, ExplicitEnd, NoPartialFinal; L2 the observed sequence of directory states, end kind, exception kind, numbers of requests and pauses.",
+    "ndjson with \\n line ends; HTTP(S) only; no checksums in the track format (a complete local file is genuine unless a declared size contradicts it); no crash while an external tool runs; "
+    "chains are two runs long. Known findings F10a/b/c (truncation inside the last line, skipped line-count check after a killed table build, offset tables trusted by mtime only) are re-observed and listed.",
+    "TLA+ file-system state machine with crash actions + TLC exhaustive checking; replay of TLC behaviours on real files with fault and crash injection; TLC trace validation",
+    spec="CorpusPrep",
+)
+
 NOT_YET = "check under construction in this round (specification planned in DESIGN.md §4); not claimed yet"
 
 
